@@ -10,6 +10,10 @@
 //                  <iMaxComp>,<dir>,<aCollision>,<gEndLine>,<numPseudo> PS:<digest pseudos> C:<numClasses>,<numLinear> P:<digest numRules,numStates per pass>
 //         silftable <numGlyphs> <numAttrs> <hasBoxes> <hex bytes>        Face::readGraphite with the bytes (exact-size buffer) as the Silf table of the base font
 //            -> fault | notable | noglyphs | nofeat | E<code> | P<i> … | ok <numSilf> | <sub-table> … | nopasses <numSilf> | …
+//         codeinfo                          -> <numClasses> <numGlyphAttrs> <numFeatures> <numUser>: the limits the code loader takes from the base font
+//         code <constraint 0|1> <passtype> <pre_context> <rule_length> <classes> <gattrs> <feats> <user> <hex bytecode>
+//            Machine::Code's loading constructor on exactly these bytes (own buffers); the four limits must be codeinfo's
+//            -> fault | S<status> | empty | ok ic=<instructions> ds=<data bytes> mr=<max_ref> mod=<0|1> del=<0|1> I:<opcodes incl. inserted TEMP_COPYs and the final RET_ZERO> D:<digest of data>
 //         collok <passtype>                 -> 0|1   (may a pass of this type carry collision flags in this font?)
 //         pass <subtable_base> <passtype> <collok> <hex bytes>       (collok must be what `collok <passtype>` answers)
 //            -> fault | E<code> (one of the layout errors) | ranges (E_BADRANGE) | states E<code> (E_BADSTATE, E_BADRULEMAPPING)
@@ -27,6 +31,8 @@
 #include "inc/Error.h"
 #include "inc/GlyphCache.h"
 #include "inc/FileFace.h"
+#include "inc/Code.h"
+#include "inc/Machine.h"
 #include "inc/TtfTypes.h"
 #undef private
 #undef protected
@@ -144,6 +150,40 @@ int main(int argc, char **argv) {
                 if (g_faults) out = "fault"; else out += g + f;
             }
             delete sf;
+        } else if (w.size() == 1 && w[0] == "codeinfo") {
+            snprintf(buf, sizeof buf, "%u %u %u %u", (unsigned)silf->numClasses(), (unsigned)face->glyphs().numAttrs(), (unsigned)face->numFeatures(), (unsigned)silf->numUser());
+            out = buf;
+        } else if (w.size() == 10 && w[0] == "code" && parse_hex(w[9], b)) {
+            // Machine::Code(is_constraint, begin, end, pre_context, rule_length, silf, face, pt) on exactly these bytes;
+            // w[5..8] = classes, glyph attrs, features, user attrs the line was made for (must be the base font's)
+            if (strtoul(w[5].c_str(), 0, 10) != silf->numClasses() || strtoul(w[6].c_str(), 0, 10) != face->glyphs().numAttrs()
+                || strtoul(w[7].c_str(), 0, 10) != face->numFeatures() || strtoul(w[8].c_str(), 0, 10) != silf->numUser()) { puts("bad-op"); fflush(stdout); continue; }
+            bool cons = atoi(w[1].c_str()) != 0;
+            int pt = atoi(w[2].c_str());
+            unsigned pre = atoi(w[3].c_str()), rl = atoi(w[4].c_str());
+            if (b.empty()) { puts("bad-op"); fflush(stdout); continue; }
+            Exact e(b);
+            {
+                vm::Machine::Code c(cons, e.p, e.p + b.size(), (uint8)pre, (uint16)rl, *silf, *face, (passtype)pt);
+                if (g_faults) out = "fault";
+                else if (c.status() != vm::Machine::Code::loaded) { snprintf(buf, sizeof buf, "S%d", (int)c.status()); out = buf; }
+                else if (!c) out = "empty";
+                else {
+                    const vm::opcode_t *tab = vm::Machine::getOpcodeTable();
+                    std::vector<unsigned> ops, data;
+                    for (size_t k = 0; k <= c._instr_count; ++k) {
+                        unsigned o = 255;
+                        for (unsigned t = 0; t <= vm::TEMP_COPY; ++t) if (tab[t].impl[cons] && tab[t].impl[cons] == c._code[k]) { o = t; break; }
+                        ops.push_back(o);
+                    }
+                    for (size_t k = 0; k < c._data_size; ++k) data.push_back(c._data[k]);
+                    snprintf(buf, sizeof buf, "ok ic=%zu ds=%zu mr=%u mod=%d del=%d", c._instr_count, c._data_size, (unsigned)c._max_ref, (int)c._modify, (int)c._delete);
+                    out = std::string(buf) + " I:";
+                    for (size_t k = 0; k < ops.size(); ++k) { snprintf(buf, sizeof buf, "%s%u", k ? "," : "", ops[k]); out += buf; }
+                    out += " D:" + digestv(data);
+                }
+            }
+            if (g_faults) out = "fault";
         } else if (w.size() == 1 && w[0] == "faceinfo") {
             snprintf(buf, sizeof buf, "%u %u %u", (unsigned)face->glyphs().numGlyphs(), (unsigned)face->glyphs().numAttrs(), face->glyphs().hasBoxes() ? 1u : 0u);
             out = buf;
